@@ -141,7 +141,9 @@ def avg_case(draw):
     ints = draw(st.lists(st.integers(0, 20) | st.integers(0, 20) | st.sampled_from([10**3, 10**5, 10**6]), min_size=n, max_size=n).filter(lambda w: sum(w) > 0))
     # how the caller holds the numbers (the scripts pass lists; rows of a table are arrays / Series); the SAME objects are handed to the
     # helper twice, as a caller that averages a table in two passes does
-    cont = draw(st.sampled_from(["list", "tuple", "ndarray", "series"]))
+    # ("series_labelled": a row of a table indexed by crop names, the weights a Series with the same labels in another order - the
+    # helper pairs values and weights by POSITION, as its list-based documentation says)
+    cont = draw(st.sampled_from(["list", "tuple", "ndarray", "series", "series_labelled"]))
     return dict(kind="avg", percentages=vals, weights_num=ints, container=cont)
 
 
@@ -158,8 +160,13 @@ def avg(ctx, c):
     valid = [(x, wx) for x, wx in zip(p, w_exact) if is_valid(x)]
     wsum = sum(wx for _, wx in valid)
     import pandas as pd
-    mk = {"list": list, "tuple": tuple, "ndarray": lambda x: np.array(x, dtype=float), "series": lambda x: pd.Series(x, dtype=float)}[c.get("container", "list")]
-    p_obj, w_obj = mk(p), mk(w)
+    mk = {"list": list, "tuple": tuple, "ndarray": lambda x: np.array(x, dtype=float), "series": lambda x: pd.Series(x, dtype=float),
+          "series_labelled": None}[c.get("container", "list")]
+    if c.get("container") == "series_labelled":
+        p_obj = pd.Series(p, index=["crop%d" % i for i in range(len(p))], dtype=float)
+        w_obj = pd.Series(w, index=["crop%d" % i for i in reversed(range(len(w)))], dtype=float)
+    else:
+        p_obj, w_obj = mk(p), mk(w)
     try:
         with quiet():
             got = ImportUtilities.weighted_average_percentages(p_obj, w_obj)
